@@ -93,4 +93,40 @@ theorem callsOnly_sound (a : Args) (fn : String) : ∀ (p : Prog), callsOnly fn 
     | true => simpa [exec, hc] using iht h.1
     | false => simpa [exec, hc] using ihe h.2
 
+/-- The keywords of the call actually made are among `kwsWhen c pol p` when `c` evaluates to `pol`. -/
+theorem kwsWhen_sound (a : Args) (c : Cond) (pol : Bool) (hc : c.eval a = pol) : ∀ (p : Prog),
+    match exec a p with
+    | .error _ => True
+    | .call _ _ kws _ => ∀ kv ∈ kws, kv.1 ∈ kwsWhen c pol p := by
+  intro p
+  induction p with
+  | error m => simp [exec]
+  | call fn f kws out =>
+    simp only [exec, kwsWhen]
+    intro kv hkv
+    obtain ⟨kd, hkd, rfl⟩ := List.mem_map.mp hkv
+    exact List.mem_map.mpr ⟨kd, hkd, rfl⟩
+  | ite c' t e iht ihe =>
+    simp only [exec, kwsWhen]
+    by_cases hcc : c' = c
+    · subst hcc
+      rw [if_pos rfl]
+      cases pol with
+      | true => simpa [hc] using iht
+      | false => simpa [hc] using ihe
+    · rw [if_neg hcc]
+      cases hce : c'.eval a with
+      | true =>
+        simp only [if_true]
+        revert iht
+        cases exec a t with
+        | error m => simp
+        | call fn ts kws out => intro h kv hkv; exact List.mem_append_left _ (h kv hkv)
+      | false =>
+        simp only [Bool.false_eq_true, if_false]
+        revert ihe
+        cases exec a e with
+        | error m => simp
+        | call fn ts kws out => intro h kv hkv; exact List.mem_append_right _ (h kv hkv)
+
 end Tsdate.Cli
